@@ -1,7 +1,7 @@
 #!/bin/bash
 # tools/seed_import.sh Cxx k  — copy a confirmed seeded change from /tmp/mut-out into /verif/seeded/Cxx-k
 set -e
-p=$1; k=$2; src=/tmp/mut-out/$p/$k; dst=/verif/seeded/$p-$k
+p=$1; k=$2; t=${3:-$2}; src=/tmp/mut-out/$p/$k; dst=/verif/seeded/$p-$t
 mkdir -p $dst; cp $src/patch.diff $src/demo.py $src/meta.json $dst/
 python3 - "$dst" <<'PY'
 import json,sys,subprocess,datetime
